@@ -60,6 +60,8 @@ def laws(rng, quick):
         L.append(("BitStruct<->Bitwise(Struct)", A.BitStruct(*fields), A.Bitwise(A.Struct(*fields)), [0, 1, 2, 3, 4], vals))
     # Hex / HexDump wrappers vs the bare construct
     for x, vals in ((A.Alias("Int16ub"), [0, 1, 65535, 65536, -1, "x"]), (A.Bytes(2), [b"ab", b"a", b"abc", 5, None]),
+                    (A.Alias("Int8sb"), [0, 1, -1, -128, 127, 128, 255]), (A.Alias("Int16sl"), [0, -1, -32768, 32767, 65535]), (A.BytesInteger(3, signed=True), [0, -1, -2**23, 2**23]),
+                    (A.Alias("Int32sb"), [0, -1, -2**31, 2**31 - 1]), (A.VarInt, [0, 1, 300]), (A.ZigZag, [0, -1, 300, -300]),
                     (A.Struct(A.Renamed("a", A.Alias("Byte"))), [{"a": 1}, {"a": 256}, {}, None])):
         L.append(("Hex<->bare", A.Hex(x), x, [0, 1, 2, 3], vals))
         L.append(("HexDump<->bare", A.HexDump(x), x, [0, 1, 2, 3], vals))
